@@ -40,12 +40,13 @@ type Case struct {
 	Method    string   `json:"method"`
 	BodyKind  string   `json:"body_kind"` // none (nil body) | bytes (length known, rewindable) | stream (opaque reader: chunked)
 	BodySize  int      `json:"body_size"`
-	SPN       string   `json:"spn"`                       // explicit | derived-ip | derived-localhost | derived-rooted (URL host "localhost.")
-	TktEType  int32    `json:"ticket_etype"`              // etype of the issued service ticket
-	SessEType int32    `json:"session_etype"`             // etype of the client's keys and of the session keys
-	Lazy      bool     `json:"lazy_login"`                // Do is called on a client that has not logged in yet
-	Expect    bool     `json:"expect_continue,omitempty"` // the caller sets "Expect: 100-continue" on the request (uploads)
-	Via       string   `json:"via,omitempty"`             // "" / do: Client.Do; helper: Client.Get / Head / Post
+	SPN       string   `json:"spn"`                          // explicit | derived-ip | derived-localhost | derived-rooted (URL host "localhost.")
+	TktEType  int32    `json:"ticket_etype"`                 // etype of the issued service ticket
+	SessEType int32    `json:"session_etype"`                // etype of the client's keys and of the session keys
+	Lazy      bool     `json:"lazy_login"`                   // Do is called on a client that has not logged in yet
+	OwnCheck  bool     `json:"own_check_redirect,omitempty"` // the caller's http.Client brings a CheckRedirect of its own that lets every redirect pass (a logging / header-copying hook)
+	Expect    bool     `json:"expect_continue,omitempty"`    // the caller sets "Expect: 100-continue" on the request (uploads)
+	Via       string   `json:"via,omitempty"`                // "" / do: Client.Do; helper: Client.Get / Head / Post
 	Seed      uint64   `json:"seed"`
 }
 
@@ -283,6 +284,9 @@ func run(c Case) (evid.Verdict, Obs) {
 		return dialer.DialContext(ctx, network, addr)
 	}}
 	hc := &http.Client{Transport: tr}
+	if c.OwnCheck {
+		hc.CheckRedirect = func(*http.Request, []*http.Request) error { return nil }
+	}
 	defer tr.CloseIdleConnections()
 	spnArg := ""
 	if c.SPN == "explicit" {
@@ -804,6 +808,7 @@ func TestProp(t *testing.T) {
 		for i := 0; i < n; i++ {
 			c.Prefix = append(c.Prefix, string(rapid.SampledFrom(weightedAll).Draw(t, "step")))
 		}
+		c.OwnCheck = rapid.IntRange(0, 3).Draw(t, "own-check-redirect") == 0
 		if rapid.IntRange(0, 3).Draw(t, "cyclic") == 0 {
 			for i, m := 0, rapid.IntRange(2, 3).Draw(t, "cycle-len"); i < m; i++ {
 				c.Cycle = append(c.Cycle, string(rapid.SampledFrom(nonFinal).Draw(t, "cycle-step")))
@@ -853,7 +858,7 @@ func TestProp(t *testing.T) {
 		for _, pre := range allScripts(p.maxLen) {
 			for _, tail := range httpsrv.Alphabet {
 				jobs = append(jobs, Case{Prefix: pre, Tail: string(tail), Method: p.method, BodyKind: p.bodyKind, BodySize: p.size, SPN: p.spn, TktEType: p.tkt, SessEType: p.ses,
-					Seed: r.Seed()*1000003 + uint64(len(jobs))})
+					Seed: r.Seed()*1000003 + uint64(len(jobs)), OwnCheck: len(pre) <= 1 && len(jobs)%2 == 1})
 				gens = append(gens, "enum-"+p.name)
 			}
 		}
@@ -892,7 +897,7 @@ func TestProp(t *testing.T) {
 					continue
 				}
 				jobs = append(jobs, Case{Prefix: pre, Tail: "200", Cycle: cy, Method: p.method, BodyKind: p.bodyKind, BodySize: p.size, SPN: p.spn, TktEType: p.tkt, SessEType: p.ses,
-					Seed: r.Seed()*104729 + uint64(k)})
+					Seed: r.Seed()*104729 + uint64(k), OwnCheck: k%3 == 0}) // a third of them through an http.Client that brings its own, permissive CheckRedirect
 				gens = append(gens, "enum-cycles")
 			}
 		}
@@ -934,7 +939,7 @@ func TestProp(t *testing.T) {
 			gens = append(gens, "enum-etypes")
 		}
 	}
-	r.Rule(fmt.Sprintf("enum: every prefix of length <= %d x 7 tails at GET/no body/explicit SPN and every prefix of length <= %d x 7 tails at POST/4 KiB/derived SPN; every non-settling cycle of 2..3 steps over {401 Negotiate, 302 same/other host, 307} after three prefixes; every script of 1..3 steps over {401 Negotiate, 307 same/other host, 308} under POST with three (thorough: five) bodies; uploads with Expect: 100-continue against seven scripts with servers that challenge on the headers alone x five bodies; four authentication scripts x method x body kind x size x SPN mode (quick: a seeded 1/4 slice without the 1 MiB bodies); every ticket etype x session etype on challenge-then-200",
+	r.Rule(fmt.Sprintf("enum (a share of all scripts through an http.Client that brings its own CheckRedirect letting every redirect pass): every prefix of length <= %d x 7 tails at GET/no body/explicit SPN and every prefix of length <= %d x 7 tails at POST/4 KiB/derived SPN; every non-settling cycle of 2..3 steps over {401 Negotiate, 302 same/other host, 307} after three prefixes; every script of 1..3 steps over {401 Negotiate, 307 same/other host, 308} under POST with three (thorough: five) bodies; uploads with Expect: 100-continue against seven scripts with servers that challenge on the headers alone x five bodies; four authentication scripts x method x body kind x size x SPN mode (quick: a seeded 1/4 slice without the 1 MiB bodies); every ticket etype x session etype on challenge-then-200",
 		profiles[0].maxLen, profiles[1].maxLen))
 	evid.Parallel(len(jobs), 64, func(i int) {
 		c := jobs[i]
